@@ -41,6 +41,47 @@ def scratch():
 MIN_SCHEMAS = "[all]\npattern = .*\nretentions = 60:1440\n"
 
 
+# A harness that runs the daemon's threads under its own scheduler installs a model of "hand this call to the reactor
+# thread" here; without one the twisted functions behave as always.
+REACTOR_MODEL = [None]
+IN_CONTROLLED_RUN = [False]      # set by thrx while its threads run
+MODEL_MISSING = [None]           # what was reached without a model (thrx turns it into a harness error, never into a hang)
+
+
+def _install_reactor_seams():
+  import twisted.internet.threads as tthreads
+  from twisted.internet import reactor
+  if getattr(tthreads, '_verif_orig_bcft', None) is not None:
+    return
+  tthreads._verif_orig_bcft = tthreads.blockingCallFromThread
+
+  def blockingCallFromThread(reactor_, f, *a, **k):
+    m = REACTOR_MODEL[0]
+    if m is not None:
+      return m.blocking_call(f, a, k)
+    if IN_CONTROLLED_RUN[0]:
+      MODEL_MISSING[0] = 'blockingCallFromThread'       # the real one would wait for a reactor that is not running
+      return None
+    # a single-threaded harness: this thread plays the reactor thread (the real function would wait for ever for a reactor
+    # that is not running)
+    return f(*a, **k)
+  tthreads.blockingCallFromThread = blockingCallFromThread
+  orig_cft = reactor.callFromThread
+
+  def callFromThread(f, *a, **k):
+    m = REACTOR_MODEL[0]
+    if m is not None:
+      return m.call_from_thread(f, a, k)
+    if IN_CONTROLLED_RUN[0]:
+      MODEL_MISSING[0] = 'reactor.callFromThread'       # the real one would queue the call for a reactor that never runs
+      return None
+    return f(*a, **k)            # single-threaded harness: this thread plays the reactor thread
+  reactor.callFromThread = callFromThread
+  # the process's main thread is "the reactor thread" of every single-threaded harness
+  from twisted.python import threadable
+  threadable.registerAsIOThread()
+
+
 def boot(conf_files=None, standins=False):
   """Make carbon importable from the working tree and give it a sane configuration root.
 
@@ -62,6 +103,7 @@ def boot(conf_files=None, standins=False):
   # carbon.service tolerates ImportError for this optional listener; the py2-only txamqp in this
   # image raises SyntaxError instead.  AMQP is anchored by no property.
   sys.modules.setdefault('carbon.amqp_listener', None)
+  _install_reactor_seams()       # before any carbon module binds these names at import
   from carbon.conf import settings
   if not _booted:
     root = scratch()
